@@ -32,6 +32,59 @@ PROPS = {
         level_note='Trusted: Kani 0.68/CBMC bit-precise semantics incl. f32/f64 from/to bytes, the reference decoder in kani/codec.rs '
                    '(bit loop), Verus/Z3 for Iter8::next. Widths >128 are outside the property.',
     ),
+    'C02': dict(
+        title='Reverse stepping exactly undoes forward stepping',
+        verus_units=['state'],
+        kani_groups=[],
+        design_ref='DESIGN.md section 5 / C02',
+        technique='Verus contracts over a ghost machine model and an undo semantics of the reverse log: every recording primitive, '
+                  'reverse_changes and fetch_and_run (all 21 opcode arms, verbatim) are proved against it, unbounded in stack depth and log length',
+        level_text='Deductive proof per function: (1) every state-mutating primitive appends log entries whose undo (spec function `undo`, '
+                   'applied the way rnext pops them) restores exactly the machine it started from, and this extends any earlier undoable '
+                   'history (rev_ext); (2) reverse_changes implements `undo` for every entry kind; (3) fetch_and_run: a completed instruction '
+                   'ends the log with SetIp(old ip) and everything below it undoes to the old machine, a failing instruction leaves only '
+                   'undoable changes and the ip on itself. Quantified over all states, stack depths, log lengths, opcodes.',
+        level_note='Assumed: the native-word contract for words called through a function pointer (call_native: keeps bases/ip, changes are '
+                   'undoable) - proved only for the native words that are themselves under contract; rnext/run/next (closures capturing &mut self) '
+                   'are not under contract, so "k backward steps" is the per-instruction inverse composed by hand; rpds/std contracts; derive(Clone) is structural.',
+        not_decided=['rnext loop itself (pop until SetIp) - its building blocks reverse_changes/add_reverse_step are proved',
+                     'native words not under contract are covered only by the assumed native-word contract'],
+    ),
+    'C14': dict(
+        title='Resource limits are hard bounds and hitting one is recoverable',
+        verus_units=['state'],
+        kani_groups=[],
+        design_ref='DESIGN.md section 5 / C14',
+        technique='Verus contracts on check_stack_limit/push_data, check_heap_limit/alloc_heap, insn_meter_increase/fetch_and_run and the set_*_limit words',
+        level_text='Deductive proof for all states and limit values: push_data succeeds iff len < S (so the stack never exceeds S), alloc_heap iff '
+                   'len < H, the instruction meter is consulted before an instruction does anything and an instruction that fails the check '
+                   'changes nothing; a failed check leaves the state unchanged, so raising the limit restores normal behaviour (the predicates depend on (len, limit) only).',
+        level_note='Assumed: words not under contract reach data_stack/heap only through push_data/alloc_heap (checked mechanically by the frame scan in '
+                   'thorough tier, not by proof); reverse_changes may restore a previously legal length.',
+    ),
+    'C15': dict(
+        title='How a program is driven does not change what it does',
+        verus_units=['state'],
+        kani_groups=[],
+        design_ref='DESIGN.md section 5 / C15',
+        technique='Verus: each primitive and fetch_and_run has ONE machine-state postcondition that does not mention whether recording is on',
+        level_text='Partial. Proved: recording on/off cannot change the machine - every primitive\'s successor machine is the same spec function of '
+                   'the predecessor in both modes (no case split on is_recording in any ensures), including over_data whose reverse path re-enters drop_data.',
+        level_note='NOT decided: eval == compile+run == compile+step* (run/next are closures over &mut self, outside Verus; State-level harnesses are out of Kani\'s reach). '
+                   'Listed under not_decided in the evidence.',
+        not_decided=['equivalence of the drive modes eval / compile+run / compile+step*'],
+    ),
+    'C17': dict(
+        title='Every error points at the token that caused it',
+        verus_units=['state'],
+        kani_groups=[],
+        design_ref='DESIGN.md section 5 / C17',
+        technique='Verus: fetch_and_run leaves ctx.ip on the failing instruction (so the debug-map lookup names its token); debug-map/code invariants on the emitters',
+        level_text='Partial. Proved for all states and opcodes: an instruction that fails leaves the instruction pointer unchanged, also inside a called '
+                   'definition, so the run-time error location is the failing opcode\'s debug-map entry.',
+        level_note='NOT decided: line/column arithmetic of token_location (string code), that build-time errors carry the failing token (next_name and all immediate words).',
+        not_decided=['token_location line/column computation', 'build-time error token for every immediate word'],
+    ),
 }
 
 # properties not claimed: reason goes to MANIFEST.not_applicable
@@ -40,11 +93,11 @@ NOT_APPLICABLE = {
     'C16': 'the lexer is str/char/parse code outside the Verus dialect and too heavy for Kani (Tok carries a Cell); printing goes through fmt; the bit-literal builder is covered under C04',
     'C18': 'the round-trip law lives entirely in the external base32/base64/z85 crates; assuming it would make the wrappers verify vacuously; the xeh-owned byte export is a C04 obligation',
     'C01': 'unit not built yet in this round (jump codec, backpatch and opcode contracts planned, DESIGN.md section 5)',
-    'C02': 'unit not built yet in this round', 'C05': 'unit not built yet in this round', 'C06': 'unit not built yet in this round',
+ 'C05': 'unit not built yet in this round', 'C06': 'unit not built yet in this round',
     'C07': 'unit not built yet in this round', 'C08': 'unit not built yet in this round', 'C09': 'unit not built yet in this round',
     'C10': 'unit not built yet in this round', 'C11': 'unit not built yet in this round', 'C12': 'unit not built yet in this round',
-    'C13': 'unit not built yet in this round', 'C14': 'unit not built yet in this round', 'C15': 'unit not built yet in this round',
-    'C17': 'unit not built yet in this round',
+    'C13': 'unit not built yet in this round',
+
 }
 
 TRUSTED_BASE = [
